@@ -123,7 +123,15 @@ def pipeline_order_distinct_top(prop, tier, seed):
                     qs.append(Query(items=items, order=order, desc=desc, distinct=distinct,
                                     top=n if n_kind == 'top' else None, limit=n if n_kind == 'limit' else None))
     cases = [(q, A, None) for A in tabs for q in qs]
-    r = _run(cases, 'all tables of <=3 rows over {x,y}^2 plus 2 tie-rich tables x {order none/asc/desc/2 keys} x {none,distinct,distinct count} x {none, top/limit 0,1,2,5} x 3 select lists; real query_table vs reference sort-dedup-truncate', tier, seed, 6000)
+    # records that are equal as text but not as values, and sort keys that are not among the selected columns
+    nasty = [[[1, '5'], ['1', '3'], [1, '1'], ['1', '4']], [[None, '2'], ['None', '1'], [None, '3']], [['x', '5'], ['y', '3'], ['x', '1'], ['y', '4'], ['x', '2']]]
+    nasty_qs = []
+    for order, desc in [(None, False), ('int(a2)', False), ('int(a2)', True), ('a2', False)]:
+        for distinct in ['', 'distinct', 'count']:
+            for n_kind, n in [(None, None), ('top', 1), ('limit', 2)]:
+                nasty_qs.append(Query(items=[('a1', None)], order=order, desc=desc, distinct=distinct, top=n if n_kind == 'top' else None, limit=n if n_kind == 'limit' else None))
+    cases = [(q, A, None) for A in nasty for q in nasty_qs] + cases
+    r = _run(cases, '3 tables with records equal as text but not as values / sort keys outside the select list x 36 order-distinct-top shapes; all tables of <=3 rows over {x,y}^2 plus 2 tie-rich tables x {order none/asc/desc/2 keys} x {none,distinct,distinct count} x {none, top/limit 0,1,2,5} x 3 select lists; real query_table vs reference sort-dedup-truncate', tier, seed, 6000)
     r['job'] = 'pipeline_order_distinct_top'
     t = termination_job(seed)
     r['evaluations'] += t['evaluations']
@@ -318,6 +326,8 @@ def _ref_agg(name, vals):
 
 
 def _close(a, b):
+    if isinstance(a, int) and isinstance(b, int) and not isinstance(a, bool) and not isinstance(b, bool):
+        return a == b               # integers are exact, however large
     if isinstance(a, (int, float)) and isinstance(b, (int, float)) and not isinstance(a, bool):
         return abs(a - b) <= 1e-9 * max(1.0, abs(a), abs(b))
     return a == b
@@ -330,7 +340,8 @@ def aggregates_job(prop, tier, seed):
     fails = []
     n = 0
     nameset = ['COUNT', 'MIN', 'MAX', 'SUM', 'AVG', 'VARIANCE', 'MEDIAN', 'ARRAY_AGG', 'ANY_VALUE']
-    valsets = [['1', '2', '3'], ['0', '5'], ['-3', '0', '-1'], ['2', '2.5'], ['10', '9', '100'], ['7'], ['1.5', '-2', '4', '4'], ['0', '0']]
+    valsets = [['1', '2', '3'], ['0', '5'], ['-3', '0', '-1'], ['2', '2.5'], ['10', '9', '100'], ['7'], ['1.5', '-2', '4', '4'], ['0', '0'],
+               ['9007199254740993', '1', '9007199254740995'], ['-9007199254740993']]      # integers a double cannot hold
     groupings = [None, 'a1', 'a1, a3']
     tables = []
     for vs in valsets:
@@ -346,6 +357,8 @@ def aggregates_job(prop, tier, seed):
                 name = names[0]
                 for sp in spellings[name]:
                     for where in (None, "a3 == 'c'"):
+                        if name in ('AVG', 'VARIANCE') and any(isinstance(r[1], str) and len(r[1]) > 15 for r in T):
+                            continue    # floating-point aggregates of integers beyond 2**53: see the targeted case agg:bigint:variance (known finding F14)
                         arg = 'a2' if name != 'COUNT' else rnd.choice(['*', '1', 'a2'])
                         items = ([grouping.split(', ')[0]] if grouping else []) + ['%s(%s)' % (sp, arg)]
                         q = 'select ' + ', '.join(items)
